@@ -773,20 +773,6 @@ package litefs
 // ===========================================================================
 // db.go — blocking write-lock acquisition, startup and recovery (C05, C11, C13)
 
-// AcquireWriteLock: retries TryAcquireWriteLock until it succeeds, the callback reports an error, or the
-// context ends. The callback (used by the halt lock to detect a racing acquire with the same ID) is
-// assumed not to modify lock state.
-//@ func (db *DB) AcquireWriteLock [C11,C13,C05]
-//@   requires  db != nil && locksWF(db) && typeis(aload(db.mode), DBMode) && ctx != nil
-//@   callee dyn.fn pure
-//@   loop 1 invariant locksWF(db) && typeis(aload(db.mode), DBMode)
-//@   ensures   locksWF(db)
-//@   ensures   err == nil ==> result0 != nil && fresh(result0) && guardSetWF(result0, db)
-//@   ensures   err == nil && dbModeIs(db, DBModeRollback) ==> holdsWriteLockRollback(result0)
-//@   ensures   err == nil && !dbModeIs(db, DBModeRollback) ==> holdsWriteLockWAL(result0)
-//@   ensures   err != nil ==> result0 == nil
-//@   nopanic
-
 // recover: the journal is rolled back first, then the WAL is checkpointed; both errors propagate.
 //@ func (db *DB) recover [C05,C17,C11,C13]
 //@   requires  dbWF(db)
